@@ -69,6 +69,26 @@ def run(ctx):
     for lang in ("hr", "sr-Latn", "bs", "sl", "en"):
         items.append(("%d. %d. %d. u %02d:%02d" % (R.randint(13, 28), R.randint(1, 12), 2019, R.randint(0, 23), R.randint(0, 59)), lang))
         items.append(("%d.%02d.%d. u %02d:%02d" % (R.randint(13, 28), R.randint(1, 12), 2022, R.randint(0, 23), R.randint(0, 59)), lang))
+    # simplification rules whose pattern spells an ASCII digit literally ('12 noon', 'less than 1 minute ago', ru '… 1 год'): a string that
+    # triggers the rule, in every digit script (the rule must see the digits however they are written)
+    lit = []
+    for r in ld["langs"]:
+        for pat, _rep in (r.get("simps") or []):
+            bare = re.sub(r"\\\d|\{\d+(,\d*)?\}|\\d", "", pat)
+            if not re.search(r"\d", bare):
+                continue
+            t = pat
+            for a, b in ((r"(\d{3,}1)", "1991"), (r"(\d*[02-9])", "2015"), ("(?:", ""), (")?", ""), (r"\s+", " "), (r"\s*", " "), (r"\b", ""), ("$", "")):
+                t = t.replace(a, b)
+            if re.search(r"[\\()\[\]{}*+?|^]", t):
+                continue                       # a construct this instantiation does not know: counted below
+            lit.append((t.strip(), r["name"]))
+    items += lit
+    if any(l == "en" for _, l in lit):
+        items += [("March 5 2015 12 noon", "en"), ("Friday 12 midnight", "en")]
+    # ', в' after a date (the comma-preposition the cleaning step removes) in the Cyrillic languages other than Russian
+    for s_, l_ in (("5 януари 2015, в 12:00", "bg"), ("5 січня 2015, в 12:00", "uk"), ("5 студзеня 2015, в 12:00", "be"), ("5 јануари 2015, в 12:00", "mk"), ("5 января 2015, в 12:00", "ru")):
+        items.append((s_, l_))
     zeros = nd_blocks()
     zsel = zeros if tier != "quick" else R.sample(zeros, 8) + [0x660, 0x6F0, 0x966, 0xFF10]
     cases = []
@@ -121,7 +141,7 @@ def run(ctx):
     cov = {"evaluations": len(cases), "distinct_nontrivial": nontriv,
            "rule": "corpus + generated dates in every language × the whitespace family (pad, double, tab, newline, NBSP, mixed runs, trailing colon) × Nd blocks; non-trivial = distinct originals that parse to a date",
            "samples": [{"s": p[0], "language": p[1], "variants": [k for k, _ in p[3]][:6]} for p in plan[:: max(1, len(plan) // 5)][:5]],
-           "strata": dict(strata), "nd_blocks": len(zsel), "relation_violations": len(viol), "excluded_spacing_sensitive": len(corpus()) - len(corp),
+           "literal_digit_simplification_strings": [x for x, _ in lit], "strata": dict(strata), "nd_blocks": len(zsel), "relation_violations": len(viol), "excluded_spacing_sensitive": len(corpus()) - len(corp),
            "model_compared": len(sub) if "model-build" not in ctx["broken"] else 0, "model_rejected": dict(rej), "model_drift": len(drift),
            "model_drift_samples": [{"s": d["case"]["s"], "model": d["model"], "lib": d["lib"]} for d in drift[:5]]}
     return {"violations": out, "known": ["%s x%d" % (k, n) for k, n in kh.items()], "coverage": cov, "level": "proof",
